@@ -29,8 +29,8 @@ const (
 type siteKind struct {
 	name        string
 	direct      func(call ssa.CallInstruction) bool
-	directInstr func(in ssa.Instruction) bool // optional: sites that are not calls (stores, sends, receives)
-	memo        map[*ssa.Function]int         // 0 unknown, 1 in progress, 2 yes, 3 no
+	directInstr func(in ssa.Instruction) bool   // optional: sites that are not calls (stores, sends, receives)
+	memo        map[*ssa.Function]int           // 0 unknown, 1 in progress, 2 yes, 3 no
 	cut         func(*ssa.BasicBlock, int) bool // optional: edges on which the obligation does not apply
 }
 
